@@ -150,11 +150,18 @@ def run(ctx):
     cjobs = []
     gens = [(n, s, f) for n, s, f in progs if n.startswith("gen")]
     rng.shuffle(gens)
+    LEVELS = [["-O0"], ["-O2"], ["-O3"]]
     for name, src, flags in gens[:30 if quick else 300]:
         base = [f for f in flags if not f.startswith("-O")] + rng.choice(REPR)
-        Ps = [cdrv.prepare_compile(src, [lvl] + base, max_states=120) for lvl in ("-O0", "-O2", "-O3")]
+        Ps = [cdrv.prepare_compile(src, lvl + base, max_states=120) for lvl in LEVELS]
         if all(P["ok"] for P in Ps):
             cjobs.append((len(cjobs), name, src, Ps, rng.getrandbits(32)))
+    # feature programs: every single-flag variant against -O0, under the plain representation and one random one
+    for name, src in gen.FEATURE_PROGRAMS:
+        for base in ([], rng.choice(REPR[1:])):
+            Ps = [cdrv.prepare_compile(src, list(o) + base, max_states=600) for o in gen.FEATURE_OPTION_SETS]
+            if all(P["ok"] for P in Ps):
+                cjobs.append((len(cjobs), name, src, Ps, rng.getrandbits(32)))
 
     def cjob(a):
         idx, name, src, Ps, seed = a
@@ -163,11 +170,15 @@ def run(ctx):
         res = {"name": name, "src": src, "viol": None, "runs": 0}
         if all(P["ok"] for P in built):
             special = set(cdrv.special_bytes(built[0]["I"]))
-            inputs = [cdrv.random_input(built[0]["m"], r2, maxlen=r2.choice([4, 10, 25]), special=special) for _ in range(8)]
+            inputs = [cdrv.random_input(built[0]["m"], r2, maxlen=r2.choice([4, 10, 25]), special=special) for _ in range(8)] if len(Ps) == 3 else \
+                     [cdrv.random_input(built[0]["m"], r2, maxlen=r2.choice([6, 25, 60, 250]), special=special, clean=(j % 2 == 1)) for j in range(40)]
             inputs = [i for i in inputs if i]
             obs = []
             for P in built:
-                cmds = [P["cp"].init_vals()] + ["run 1 %d %s 0" % (len(i), " ".join(map(str, i))) for i in inputs]
+                # feature programs: every other input is fed one byte per call (the machine state then lives in the struct between bytes)
+                bytewise = lambda j: len(Ps) != 3 and j % 4 == 1
+                cmds = [P["cp"].init_vals()] + [("run %d %s %s 0" % (len(i), " ".join(["1"] * len(i)), " ".join(map(str, i)))) if bytewise(j) else
+                                                ("run 1 %d %s 0" % (len(i), " ".join(map(str, i)))) for j, i in enumerate(inputs)]
                 rc, cl, cerr = cdrv.run_c(P["wd"], "\n".join(cmds) + "\n", timeout=60)
                 o = []
                 for blk in cdrv.split_blocks(cl):
@@ -176,8 +187,8 @@ def run(ctx):
                     codes = tuple(c for c, _ in ob[1] if c not in ("DONE",)) if len(ob) > 2 else ()
                     o.append((hooks, codes, ob[2] if len(ob) > 2 else None))
                 obs.append((rc, o))
-            res["runs"] = len(inputs) * 3
-            for k in (1, 2):
+            res["runs"] = len(inputs) * len(built)
+            for k in range(1, len(built)):
                 if obs[k][0] != obs[0][0] or len(obs[k][1]) != len(obs[0][1]):
                     res["viol"] = {"kind": "binary-exit", "flags": built[k]["flags"], "rc": obs[k][0]}
                     break
